@@ -75,6 +75,12 @@ pub enum FinalReply {
     WrongPaddedTo(usize),
     /// nothing is sent, the connection is closed
     Eof,
+    /// these bytes, as they are (e.g. the final reply recorded from an earlier session)
+    Raw(Vec<u8>),
+    /// the honest value, sealed and signed correctly but numbered with this sequence number instead of 0
+    SealedWithSeq(u32),
+    /// a correctly sealed and signed value of this many bytes (0x5A...), whatever the key
+    SealedBlob(usize),
 }
 
 #[derive(Clone, Debug, PartialEq, Eq, Serialize, Deserialize)]
@@ -115,6 +121,8 @@ pub struct ServerParams {
     /// 1..4: a Set Error Info PDU (ERRINFO_NONE; the client announced support for it) is sent before the server's
     /// synchronize / control-cooperate / granted-control / font-map PDU; 0: never
     pub errinfo_before: usize,
+    /// dataPriority / segmentation byte of the server's send-data indications (0x70 high priority, begin + end)
+    pub sdi_priority: u8,
 }
 
 impl Default for ServerParams {
@@ -147,6 +155,7 @@ impl Default for ServerParams {
             manual: false,
             licence_sec_flags: 0x0080,
             errinfo_before: 0,
+            sdi_priority: 0x70,
             reuse_share_id: false,
         }
     }
@@ -509,6 +518,12 @@ impl RefServer {
         }
     }
 
+    /// start as if the X.224 negotiation had already selected `p.selected` (for harnesses that drive the upgrade
+    /// calls of the transport layer directly)
+    pub fn skip_negotiation(&mut self) {
+        self.phase = if self.p.selected == 1 { Phase::ExpectConnectInitial } else { Phase::CsspNegotiate };
+    }
+
     fn reframe_inner(&self, honest: &[u8], inner: &[u8]) -> Vec<u8> {
         // honest = TPKT(X224DT(MCS SDin(header..., data))) or TPKT(X224DT(other))
         if honest.len() >= 8 && honest[0] == 3 && honest[7] == (26 << 2) {
@@ -521,7 +536,7 @@ impl RefServer {
     }
 
     fn sdi(&self, data: &[u8]) -> Vec<u8> {
-        framing::tpkt(&framing::x224_dt(&mcs::send_data_indication(1002, 1003, data)))
+        framing::tpkt(&framing::x224_dt(&mcs::send_data_indication_prio(1002, 1003, data, self.p.sdi_priority)))
     }
 
     fn caps(&self) -> Vec<CapSet> {
@@ -1049,6 +1064,13 @@ impl RefServer {
                 wrap_honest(&mut s2c, &p)
             }
             FinalReply::Eof => return None,
+            FinalReply::Raw(b) => b,
+            FinalReply::SealedWithSeq(seq) => {
+                let mut c = s2c.clone();
+                c.seq = seq;
+                wrap_honest(&mut c, &honest_plain)
+            }
+            FinalReply::SealedBlob(n) => wrap_honest(&mut s2c, &vec![0x5A; n]),
         })
     }
 }
